@@ -301,6 +301,8 @@ def run_dump(spec, acc):
             dec = NMEA2000Decoder(dump_to_file=path)
             expected = []
             n_long = 9000 if quick else 70000
+            # at least twice any count the code under test mentions literally (a batch size, a cache size)
+            n_long = max(n_long, min(45000, 2 * max(gen.harvested_in(1000, 20000) or [0]) + 10))
             payloads = [(d_, pool.payload(d_)) for d_ in pool.singles]
             payloads = [(d_, p_) for d_, p_ in payloads if p_ is not None]
             for k_ in range(n_long):
